@@ -120,3 +120,19 @@ def tracing(path):
             os.environ.pop("CBI_VERIF_TRACE", None)
         else:
             os.environ["CBI_VERIF_TRACE"] = old_env
+
+
+def run_find_traced(rootdir, configuration, trace_dir, ident, excludes=None):
+    """run_find with the hooks on; returns (state, codebase, logs, error, traces) where traces are
+    ready for Trace_Preproc (loaded while the files still exist)"""
+    from . import trace_preproc
+    tf = os.path.join(trace_dir, f"trace_{abs(hash(ident)) % 10**9}.ndjson")
+    with tracing(tf):
+        st, cb, logs, err = run_find(rootdir, configuration, excludes=excludes)
+    traces = []
+    if os.path.exists(tf):
+        try:
+            traces = trace_preproc.load_trace_file(tf, ident)
+        finally:
+            os.unlink(tf)
+    return st, cb, logs, err, traces
